@@ -1,0 +1,335 @@
+/*!
+Verification hooks. Only compiled with the `verif` cargo feature (off by default).
+
+Three kinds of hooks are provided for external runtime monitors:
+
+1. *Scheduling points* ([`pause`]): placed only where the database mutex is **not** held. An
+   installed handler may sleep, yield or park the calling thread there.
+1. *Notes* ([`note`]): record-only events that may be emitted while the database mutex is held.
+   Handlers must not block in a note.
+1. *Accessors*: read-only views of crate-private structures (log reader/writer, table
+   builder/reader, the current version's file layout and a few state fields of [`crate::DB`]).
+
+With no handler installed a hook is one relaxed atomic load.
+*/
+
+use std::sync::atomic::{AtomicBool, Ordering};
+use std::sync::Arc;
+
+use parking_lot::RwLock;
+
+pub use crate::fs::UnlockableFile;
+
+/// Receiver of hook events.
+pub trait Handler: Send + Sync {
+    /// Called at a scheduling point. The calling thread holds no database lock.
+    fn pause(&self, point: &'static str, args: &[u64]);
+
+    /// Called for a record-only event. The calling thread may hold the database mutex.
+    fn note(&self, point: &'static str, args: &[u64]);
+}
+
+static ENABLED: AtomicBool = AtomicBool::new(false);
+static HANDLER: RwLock<Option<Arc<dyn Handler>>> = parking_lot::const_rwlock(None);
+
+/// Install (or with `None`, remove) the process-wide handler.
+pub fn set_handler(handler: Option<Arc<dyn Handler>>) {
+    let mut slot = HANDLER.write();
+    ENABLED.store(handler.is_some(), Ordering::SeqCst);
+    *slot = handler;
+}
+
+fn current_handler() -> Option<Arc<dyn Handler>> {
+    if !ENABLED.load(Ordering::Relaxed) {
+        return None;
+    }
+
+    HANDLER.read().clone()
+}
+
+/// A scheduling point.
+#[inline]
+pub fn pause(point: &'static str, args: &[u64]) {
+    if let Some(handler) = current_handler() {
+        handler.pause(point, args);
+    }
+}
+
+/// A record-only event.
+#[inline]
+pub fn note(point: &'static str, args: &[u64]) {
+    if let Some(handler) = current_handler() {
+        handler.note(point, args);
+    }
+}
+
+/// A user key, sequence number, operation triple.
+#[derive(Clone, Debug, PartialEq, Eq)]
+pub struct KeyInfo {
+    /// The user key.
+    pub user_key: Vec<u8>,
+    /// The sequence number.
+    pub sequence: u64,
+    /// The operation tag.
+    pub operation: crate::Operation,
+}
+
+impl From<&crate::key::InternalKey> for KeyInfo {
+    fn from(key: &crate::key::InternalKey) -> Self {
+        KeyInfo {
+            user_key: key.get_user_key().to_vec(),
+            sequence: key.get_sequence_number(),
+            operation: key.get_operation(),
+        }
+    }
+}
+
+/// Metadata of one table file of the current version.
+#[derive(Clone, Debug, PartialEq, Eq)]
+pub struct FileInfo {
+    /// The level the file is at.
+    pub level: usize,
+    /// The file number.
+    pub number: u64,
+    /// The recorded file size.
+    pub size: u64,
+    /// The recorded smallest key.
+    pub smallest: KeyInfo,
+    /// The recorded largest key.
+    pub largest: KeyInfo,
+}
+
+/// A few state fields of an open database, read under the database mutex.
+#[derive(Clone, Debug, Default)]
+pub struct Probe {
+    /// There is an immutable memtable.
+    pub has_immutable_memtable: bool,
+    /// A background compaction is scheduled or running.
+    pub background_compaction_scheduled: bool,
+    /// The current version wants a size or seek compaction.
+    pub needs_compaction: bool,
+    /// The sticky error, if any.
+    pub bad_state: Option<String>,
+    /// The last published sequence number.
+    pub prev_sequence_number: u64,
+    /// The current WAL number according to the version set.
+    pub curr_wal_number: u64,
+    /// The WAL number of a memtable being flushed, if any.
+    pub prev_wal_number: Option<u64>,
+    /// The current manifest file number.
+    pub manifest_file_number: u64,
+    /// The number of versions in the version set's list.
+    pub num_versions: usize,
+    /// File numbers referenced by any live version.
+    pub live_files: Vec<u64>,
+    /// File numbers protected because they are being built.
+    pub tables_in_use: Vec<u64>,
+    /// A manual compaction is registered.
+    pub manual_compaction_pending: bool,
+    /// Number of live snapshots.
+    pub num_snapshots: usize,
+}
+
+/// Accessors for the log file format.
+pub mod log {
+    use std::path::Path;
+    use std::sync::Arc;
+
+    use crate::errors::LogIOError;
+    use crate::fs::FileSystem;
+    use crate::logs::{LogReader, LogWriter};
+
+    /// Wrapper around the crate-private log writer.
+    #[derive(Debug)]
+    pub struct Writer(LogWriter);
+
+    impl Writer {
+        /// Open a log file for writing (truncating) or appending.
+        pub fn new(fs: Arc<dyn FileSystem>, path: &Path, append: bool) -> Result<Self, LogIOError> {
+            Ok(Writer(LogWriter::new(fs, path, append)?))
+        }
+
+        /// Append one record.
+        pub fn append(&mut self, data: &[u8]) -> Result<(), LogIOError> {
+            self.0.append(data)
+        }
+    }
+
+    /// Wrapper around the crate-private log reader.
+    pub struct Reader(LogReader);
+
+    impl std::fmt::Debug for Reader {
+        fn fmt(&self, f: &mut std::fmt::Formatter<'_>) -> std::fmt::Result {
+            write!(f, "verif::log::Reader")
+        }
+    }
+
+    impl Reader {
+        /// Open a log file for reading from its start.
+        pub fn new(fs: Arc<dyn FileSystem>, path: &Path) -> Result<Self, LogIOError> {
+            Ok(Reader(LogReader::new(fs, path, 0)?))
+        }
+
+        /// Read the next record. The boolean is true at the end of the file.
+        pub fn read_record(&mut self) -> Result<(Vec<u8>, bool), LogIOError> {
+            self.0.read_record()
+        }
+    }
+}
+
+/// Accessors for the table file format.
+pub mod table {
+    use std::rc::Rc;
+    use std::sync::Arc;
+
+    use crate::file_names::FileNameHandler;
+    use crate::key::InternalKey;
+    use crate::tables::errors::ReadError;
+    use crate::tables::{Table, TableBuilder};
+    use crate::{DbOptions, Operation, RainDbIterator, ReadOptions};
+
+    use super::KeyInfo;
+
+    /// One entry of a table: user key, sequence number, operation, value.
+    pub type Entry = (Vec<u8>, u64, Operation, Vec<u8>);
+
+    /// Outcome of a point lookup in one table file.
+    #[derive(Clone, Debug, PartialEq, Eq)]
+    pub enum Lookup {
+        /// The newest entry at or below the bound is a put with this value.
+        Value(Vec<u8>),
+        /// The newest entry at or below the bound is a deletion.
+        Deleted,
+        /// The file has no entry of the key at or below the bound.
+        NotInFile,
+        /// The lookup failed.
+        Error(String),
+    }
+
+    /**
+    Build the table file with the provided number under `options.db_path` from entries that are
+    already sorted in internal-key order. Returns the file size.
+    */
+    pub fn build(options: &DbOptions, file_number: u64, entries: &[Entry]) -> Result<u64, String> {
+        let mut builder =
+            TableBuilder::new(options.clone(), file_number).map_err(|err| err.to_string())?;
+        for (user_key, sequence, operation, value) in entries {
+            let key = InternalKey::new(user_key.clone(), *sequence, *operation);
+            builder
+                .add_entry(Rc::new(key), value)
+                .map_err(|err| err.to_string())?;
+        }
+        builder.finalize().map_err(|err| err.to_string())?;
+
+        Ok(builder.file_size())
+    }
+
+    /// A table file opened for reading.
+    pub struct Reader {
+        table: Arc<Table>,
+    }
+
+    impl std::fmt::Debug for Reader {
+        fn fmt(&self, f: &mut std::fmt::Formatter<'_>) -> std::fmt::Result {
+            write!(f, "verif::table::Reader")
+        }
+    }
+
+    /// Open the table file with the provided number under `options.db_path`.
+    pub fn open(options: &DbOptions, file_number: u64) -> Result<Reader, String> {
+        let file_name_handler = FileNameHandler::new(options.db_path().to_string());
+        let path = file_name_handler.get_table_file_path(file_number);
+        let file = options
+            .filesystem_provider()
+            .open_file(&path)
+            .map_err(|err| err.to_string())?;
+        let table = Table::open(options.clone(), file).map_err(|err| err.to_string())?;
+
+        Ok(Reader {
+            table: Arc::new(table),
+        })
+    }
+
+    impl Reader {
+        /// Point lookup of the newest entry of `user_key` with a sequence number at or below
+        /// `sequence`.
+        pub fn get(&self, user_key: &[u8], sequence: u64, fill_cache: bool) -> Lookup {
+            let read_options = ReadOptions {
+                fill_cache,
+                snapshot: None,
+            };
+            let key = InternalKey::new_for_seeking(user_key.to_vec(), sequence);
+            match self.table.get(&read_options, &key) {
+                Ok(Some(value)) => Lookup::Value(value),
+                Ok(None) => Lookup::Deleted,
+                Err(ReadError::KeyNotFound) => Lookup::NotInFile,
+                Err(err) => Lookup::Error(err.to_string()),
+            }
+        }
+
+        /// Get a cursor over the table's entries.
+        pub fn cursor(&self, fill_cache: bool) -> Cursor {
+            let read_options = ReadOptions {
+                fill_cache,
+                snapshot: None,
+            };
+            Cursor {
+                inner: Table::iter_with(Arc::clone(&self.table), read_options),
+            }
+        }
+    }
+
+    /// A cursor over the entries of a table.
+    pub struct Cursor {
+        inner: crate::tables::table::TwoLevelIterator,
+    }
+
+    impl std::fmt::Debug for Cursor {
+        fn fmt(&self, f: &mut std::fmt::Formatter<'_>) -> std::fmt::Result {
+            write!(f, "verif::table::Cursor")
+        }
+    }
+
+    fn convert(entry: Option<(&InternalKey, &Vec<u8>)>) -> Option<(KeyInfo, Vec<u8>)> {
+        entry.map(|(key, value)| (KeyInfo::from(key), value.clone()))
+    }
+
+    impl Cursor {
+        /// See [`RainDbIterator::is_valid`].
+        pub fn is_valid(&self) -> bool {
+            self.inner.is_valid()
+        }
+
+        /// See [`RainDbIterator::seek`].
+        pub fn seek(&mut self, user_key: &[u8], sequence: u64) -> Result<(), String> {
+            let key = InternalKey::new_for_seeking(user_key.to_vec(), sequence);
+            self.inner.seek(&key).map_err(|err| err.to_string())
+        }
+
+        /// See [`RainDbIterator::seek_to_first`].
+        pub fn seek_to_first(&mut self) -> Result<(), String> {
+            self.inner.seek_to_first().map_err(|err| err.to_string())
+        }
+
+        /// See [`RainDbIterator::seek_to_last`].
+        pub fn seek_to_last(&mut self) -> Result<(), String> {
+            self.inner.seek_to_last().map_err(|err| err.to_string())
+        }
+
+        /// See [`RainDbIterator::next`].
+        #[allow(clippy::should_implement_trait)]
+        pub fn next(&mut self) -> Option<(KeyInfo, Vec<u8>)> {
+            convert(self.inner.next())
+        }
+
+        /// See [`RainDbIterator::prev`].
+        pub fn prev(&mut self) -> Option<(KeyInfo, Vec<u8>)> {
+            convert(self.inner.prev())
+        }
+
+        /// See [`RainDbIterator::current`].
+        pub fn current(&self) -> Option<(KeyInfo, Vec<u8>)> {
+            convert(self.inner.current())
+        }
+    }
+}
